@@ -214,6 +214,29 @@ pub fn run(ctx: &Ctx, model: &mut Model, rep: &mut Report) {
                 rep.count("corr_skipped_unmodelled_inline_or_reader_panic");
             }
         }
+        // the reader keeps the text (theorem `reader_content`): both sides of the equation from the Lean definitions
+        // vs the harness' own pass over the real parser's events and the real reader's blocks, and the equation
+        // itself on the implementation
+        if ctx.thorough || i % 2 == 0 {
+            match crate::events::compare_flat(model, &text) {
+                None => rep.count("reader_flat_skipped_panic_or_unmodelled"),
+                Some(c) => {
+                    rep.correspondence_cases += 1;
+                    rep.count(&format!("reader_flat_grammar_{}", c.grammar));
+                    if !c.model_events_agree {
+                        rep.disagree(json!({"op": "Flat.events / htmlTextFree", "key": key, "text": text, "model": c.detail, "impl": "harness' own concatenation of the parser's event texts"}));
+                    }
+                    if c.model_blocks_agree == Some(false) {
+                        rep.disagree(json!({"op": "Flat.blocks ∘ Reader.read", "key": key, "text": text, "model": "flat text of the model reader's blocks", "impl": "flat text of MarkdownReader::document"}));
+                    }
+                    match c.impl_holds {
+                        Some(true) => rep.count("reader_flat_equation_holds"),
+                        Some(false) => rep.fail(json!({"kind": "reader_flat", "key": key, "text": text, "what": format!("the reader's blocks do not carry exactly the text the parser reported: {}", c.detail)})),
+                        None => rep.count("reader_flat_not_applicable"),
+                    }
+                }
+            }
+        }
         let via = crate::act::via_for(i as u64);
         if let Some(what) = crate::act::with_via(via, || check_doc(&key, &text)) {
             rep.fail(json!({"kind": "content", "key": key, "text": text, "via": format!("{:?}", via), "what": what}));
